@@ -803,6 +803,15 @@ def gen_c13(rng, thorough=False):
             steps = [dict(x) for x in pre] + [dict(x) for x in evs] + [dict(x) for x in tail]
             scs.append(scenario(len(scs), steps, mode="task", retry=(100, 400), queue=rng.choice([2, 16]),
                                 max_timeouts=rng.choice([0, 1]), tag=f"c13-{ln}-{en}"))
+    # a command handed in while the connection attempt completes in the same instant (both branches of the
+    # task's select! are ready): whichever order the task takes, the command must not be lost
+    for res in ("ok", "err"):
+        for what in ("disable", "shutdown", "submit", "decode", "enable"):
+            for rep in range(12 if thorough else 6):
+                first = cmd(what) if what != "submit" else submit(1, 3, 1, 0, 1, (), 50)
+                steps = [cmd("enable"), dict(first, race=True), {"op": "connector", "res": res, "race": True}]
+                steps += [tick(100), conn("ok"), submit(60, 3, 1, 0, 1, (), 50), tick(50), cmd("shutdown")]
+                scs.append(scenario(len(scs), steps, mode="task", retry=(100, 400), tag=f"c13-race-{what}-{res}"))
     scs += gen_task_random(rng, 1500 if thorough else 250, sid0=len(scs))
     return scs
 
@@ -813,7 +822,15 @@ def gen_c14(rng, thorough=False):
     for rmin, rmax in grid:
         # k failed connects in a row, waiting exactly delay-1 then 1 each time
         def wait(d):
-            return ([tick(d - 1)] if d > 1 else []) + [tick(1)]
+            # traffic that arrives while waiting (requests fail fast, a decode change and a redundant enable are
+            # no-ops) must not shorten the wait
+            noise = []
+            if rng.random() < 0.6:
+                noise = [rng.choice([submit(900 + rng.randrange(90), 3, 1, 0, 1, (), 50), cmd("decode", level=[1, 1, 1]), cmd("enable")])
+                         for _ in range(rng.randint(1, 2))]
+            if d > 2:
+                return [tick(1)] + noise + [tick(d - 2), tick(1)]
+            return noise + ([tick(d - 1)] if d > 1 else []) + [tick(1)]
         for pattern in ("fail*8", "fail3-ok-fail3", "fail2-ok-eof-fail2", "ok-eof-ok-eof", "fail4-disable-enable-fail2",
                         "fail2-ok-garbage-fail3", "fail3-ok-maxtimeouts-fail2"):
             steps = [cmd("enable")]
